@@ -51,11 +51,11 @@ def index_loops(fn):
     return out
 
 
-def naming(fn, program=None):
+def naming(fn, program=None, allow_overwritten=False):
     """Substitution making atoms independent of most local names: single-definition locals -> their
     initialiser; range-for variables -> each(<range>); structured bindings -> bindN(<init>);
     locals that are written after their declaration keep their own name."""
-    subst = dict(local_defs(fn, program))
+    subst = dict(local_defs(fn, program, allow_overwritten=allow_overwritten))
     for st in stmts(fn.body):
         if st.get("k") == "foreach" and isinstance(st.get("var"), dict):
             v = st["var"]
